@@ -181,6 +181,12 @@ def run(ctx):
     # ---- spellings captured by start() for read()/the constructor are captured on every accepting path (shared with C05)
     from . import c05
     c05.rule_scratch(ctx, rep, rule='R-SPELL-SCRATCH')
+    # ---- a paragraph drops the up to three leading spaces of its lines and the renderer writes block markers at the
+    # start of the line: a hand-written block start that treats 0..3 leading spaces differently turns "   > x" into a
+    # paragraph whose rendering parses as a quote (shared with C14)
+    from . import c14
+    c14.rule_scanner_indent(ctx, rep, rule='R-INDENT-DROPPED', upto=3,
+                            desc='Quote.start / HtmlBlock.start accept a line with 0, 1, 2 and 3 leading spaces alike')
     # ---- the definition block keeps every definition it was given, in order, duplicates of a label included
     rule_definitions_kept(ctx, rep)
     rule_definitions_rendered(ctx, rep, cfgs)
